@@ -559,7 +559,12 @@ def extract_facts(system) -> Dict[str, Any]:
                 if bo is not None:
                     # the colorizer links the whole dotted expression to the resolved base and the names inside
                     # subscripts through the annotation linker
-                    sg.append(oid(bo))
+                    # (`refmap` replaces the written name by the base's qualified name, which link_to then expands
+                    #  again in the module's scope: a local name that shadows its first component loses the link)
+                    if isinstance(base_node, ast.Subscript):
+                        sg.append(oid(bo))
+                    else:
+                        sg.append(ann_link_to(o, bo.fullName()))
                     if isinstance(base_node, ast.Subscript):
                         for nm in _expr_names(base_node.slice):
                             sg.append(ann_link_to(o, nm))
